@@ -5,6 +5,7 @@ import (
 	"encoding/json"
 	"fmt"
 	"math"
+	"strings"
 	"testing"
 
 	geom "github.com/twpayne/go-geom"
@@ -33,6 +34,10 @@ type Case struct {
 	// Deep (geom mode): the geometry is also measured at the bottom of a tower of that
 	// many nested collections.
 	Deep int `json:"deep,omitempty"`
+	// Start (extend mode): the box that is extended already holds an extent, given to
+	// it in one of the ways a box can be given one (and cloned, when Via ends in
+	// "+clone"); nil = a new box of layout L0.
+	Start *Box `json:"start,omitempty"`
 }
 
 // Box describes a Bounds to build.
@@ -207,6 +212,19 @@ func genCase(t *rapid.T) Case {
 		}
 		c.L0 = int(rapid.SampledFrom([]geom.Layout{geom.NoLayout, geom.XY, geom.XYZ, geom.XYM, geom.XYZM}).Draw(t, "l0"))
 		c.Perm = rapid.Permutation(seq(n)).Draw(t, "perm")
+		if c.L0 != int(geom.NoLayout) && rapid.Bool().Draw(t, "started") {
+			b := genBox(t, "start")
+			b.Layout = c.L0
+			b.A, b.B = b.A[:0], b.B[:0]
+			for i := 0; i < geom.Layout(c.L0).Stride(); i++ {
+				b.A = append(b.A, model.Of(float64(rapid.IntRange(-40, 40).Draw(t, "starta"))))
+				b.B = append(b.B, model.Of(float64(rapid.IntRange(-40, 40).Draw(t, "startb"))))
+			}
+			if rapid.IntRange(0, 3).Draw(t, "startclone") == 0 {
+				b.Via += "+clone"
+			}
+			c.Start = &b
+		}
 	case "overlap":
 		c.B1, c.B2 = genBox(t, "b1"), genBox(t, "b2")
 		s := min(geom.Layout(c.B1.Layout).Stride(), geom.Layout(c.B2.Layout).Stride())
@@ -237,6 +255,10 @@ func seq(n int) []int {
 }
 
 func buildBox(b Box) *geom.Bounds {
+	if via, ok := strings.CutSuffix(b.Via, "+clone"); ok {
+		b.Via = via
+		return buildBox(b).Clone()
+	}
 	l := geom.Layout(b.Layout)
 	a, bb := model.Floats(b.A), model.Floats(b.B)
 	switch b.Via {
@@ -421,7 +443,20 @@ func prop(c Case) error {
 			want = join(want, c.Gs[i].ReportedLayout())
 			r.addGeom(&c.Gs[i])
 		}
-		b1 := geom.NewBounds(geom.Layout(c.L0))
+		newBox := func() *geom.Bounds { return geom.NewBounds(geom.Layout(c.L0)) }
+		if c.Start != nil {
+			newBox = func() *geom.Bounds { return buildBox(*c.Start) }
+			a, bb := model.Floats(c.Start.A), model.Floats(c.Start.B)
+			for i, n := range dims(geom.Layout(c.L0)) {
+				if strings.HasPrefix(c.Start.Via, "extend-xy-only") && i >= 2 {
+					continue
+				}
+				x := r[n]
+				x.lo, x.hi = math.Min(x.lo, math.Min(a[i], bb[i])), math.Max(x.hi, math.Max(a[i], bb[i]))
+				r[n] = x
+			}
+		}
+		b1 := newBox()
 		for _, t := range ts {
 			if ret := b1.Extend(t); ret != b1 {
 				return fmt.Errorf("Extend did not return its receiver")
@@ -430,7 +465,7 @@ func prop(c Case) error {
 		if err := checkBounds("Extend in order", b1, want, r); err != nil {
 			return err
 		}
-		b2 := geom.NewBounds(geom.Layout(c.L0))
+		b2 := newBox()
 		for _, i := range c.Perm {
 			b2.Extend(ts[i])
 		}
